@@ -242,6 +242,10 @@ def main(run, tier):
     prove_lemmas(run, lemmas, both=both)
     conc = concretes(vlq)
     verify_functions(run, cs, reg, conc, tier=tier, both=both)
+    # P3: the whole-mappings round trip, through a stated model of str.join / str.split (contracts/vlqmap.py)
+    import contracts.vlqmap as cvm
+    mcs, mreg = cvm.build(vlq, cs, env)
+    verify_functions(run, mcs, mreg, {'calmjs.parse.vlq:roundtrip_mappings': conc.get('calmjs.parse.vlq:roundtrip_mappings')}, tier=tier, both=both)
     # bounded stand-ins (never counted as proved): the same contracts, executed
     for q, c in conc.items():
         f = run_bounded(run, c, tier)
@@ -257,8 +261,9 @@ def main(run, tier):
         "str over INT_B64 <-> Seq(Int) of digit values through the bijection INT_B64/B64_INT (checked concretely)",
         "model: (f(x) for x in xs) yields f(xs[j]) in order; ''.join concatenates (assumed, not verified)",
         'generators are run eagerly (their bodies here have no side effects)',
-        'encode_mappings/decode_mappings (nested join/split with separators) are NOT under contract: bounded '
-        'stand-in only (P3)',
+        'encode_mappings/decode_mappings: verified in place (no contracts of their own) inside the round-trip harness for every shape of '
+        '<= 2 lines x <= 2 segments, through the stated model of str.join / str.split (split inverts join when the parts are non-empty in '
+        'number and free of the separator; side conditions are obligations); other shapes: bounded stand-in',
         'canonical string = image of the canonical encoder; equivalence with the syntactic definition '
         '(no padding group, no negative zero) is checked bounded only',
     )
